@@ -54,6 +54,19 @@ def boundaries():
         add([a, b, {"op": "write", "p": "/a", "data": "seq"}, {"op": "write", "p": "/b", "data": "seq"}, {"op": "resize", "p": "/a", "dims": [7]},
              {"op": "resize", "p": "/b", "dims": [5, 2]}, {"op": "write", "p": "/a", "data": "neg"}, {"op": "resize", "p": "/b", "dims": [6, 6]},
              {"op": "resize", "p": "/a", "dims": [3]}, {"op": "write", "p": "/b", "data": "neg"}, {"op": "resize", "p": "/b", "dims": [7, 6]}], 2)
+    # maxima and extents beyond the signed 64-bit range, element counts of exactly 2^64 (header-only resizes: nothing is written there)
+    for sb in (2, 0, 3):
+        mk = {"op": "mkds", "p": "/d", "dt": "i32", "dims": [4], "chunk": [2], "max": [5], "top": [1]}          # maximum 2^63+5
+        add([mk, {"op": "write", "p": "/d", "data": "seq"}, {"op": "resize", "p": "/d", "dims": [6]}, {"op": "resize", "p": "/d", "dims": [3]},
+             {"op": "write", "p": "/d", "data": "neg"}], sb)
+        mk = {"op": "mkds", "p": "/d", "dt": "i32", "dims": [4], "chunk": [2], "max": [50]}
+        add([mk, {"op": "write", "p": "/d", "data": "seq"}, {"op": "resize", "p": "/d", "dims": [51], "top": [1]},          # 2^63+51: beyond the maximum
+             {"op": "resize", "p": "/d", "dims": [50]}, {"op": "resize", "p": "/d", "dims": [0], "top": [1]}, {"op": "resize", "p": "/d", "dims": [5]},
+             {"op": "write", "p": "/d", "data": "neg"}], sb)
+        mk = {"op": "mkds", "p": "/d", "dt": "i32", "dims": [3, 3], "chunk": [2, 2], "max": [-1, -1]}
+        add([mk, {"op": "write", "p": "/d", "data": "seq"}, {"op": "resize", "p": "/d", "dims": [1 << 32, 1 << 32]}, {"op": "resize", "p": "/d", "dims": [2, 4]},
+             {"op": "write", "p": "/d", "data": "neg"}, {"op": "resize", "p": "/d", "dims": [1 << 31, 1 << 33]}, {"op": "resize", "p": "/d", "dims": [3, 3]},
+             {"op": "write", "p": "/d", "data": "seq"}], sb)
     return cases
 
 
